@@ -270,7 +270,11 @@ def strip_io(l):
 def run_harness(ctx, harness, lines, timeout=120):
     try:
         r = vlib.sh([str(harness)], input="\n".join(lines) + "\n", env=ctx.san_env(), timeout=timeout, errors="replace")
-        return r.stdout.splitlines(), r.returncode, r.stderr[-1500:]
+        err = r.stderr
+        i = err.find("ERROR: AddressSanitizer")
+        if i < 0:
+            i = err.find("runtime error")
+        return r.stdout.splitlines(), r.returncode, (err[max(0, i - 100):i + 1400] if i >= 0 else err[-1500:])
     except subprocess.TimeoutExpired:
         return [], -9, "timeout"
 
@@ -377,7 +381,7 @@ def report(ctx, harness, res, counts):
     if v == "ok":
         return
     lines = res["lines"]
-    replay = {"script": lines, "episode": res["name"], "index": res["index"], "detail": res["detail"], "stderr": res["err"][-600:]}
+    replay = {"script": lines, "episode": res["name"], "index": res["index"], "detail": res["detail"], "stderr": res["err"][:1500]}
     if v == "D2":
         ctx.violation(KEY_D2, "sqfs_meta_reader_seek: a failed cache-miss seek leaves the new block's bytes under the old block_offset; "
                       "a later query of the old block is answered from the wrong block (%s)" % res["detail"][:300], replay)
@@ -549,6 +553,14 @@ def gen_image_episode(ctx, harness, rng, image, idx, nops, damaged):
     return lines, meta, None
 
 
+def crash_site(err):
+    """name of the first frame of a sanitizer report that lies in the code under test"""
+    for m in re.finditer(r"#\d+ 0x[0-9a-f]+ in (\S+) (\S+)", err):
+        if "/lib/" in m.group(2) and "/harness/" not in m.group(2) and "libsanitizer" not in m.group(2):
+            return m.group(1)
+    return "unknown"
+
+
 def hist_mismatches(impl):
     bad = []
     for i, l in enumerate(impl):
@@ -602,7 +614,7 @@ def run_image_part(ctx, harness, counts):
             damaged = j >= nvalid
             lines, meta, crash = gen_image_episode(ctx, harness, ctx.rng, image, i * 100 + j, nops, damaged)
             if crash:
-                ctx.violation("crash:img-open:%s" % vlib.sha("\n".join(lines))[:10], "real reader code aborted while opening/walking an image "
+                ctx.violation("C10:crash-in:%s" % crash_site(crash[2]), "real reader code aborted while opening/walking an image "
                               "(rc=%s): %s" % (crash[1], crash[2][-300:]), {"script": lines, "note": "image file is regenerated by the check; "
                               "seed and tier reproduce it"})
                 continue
@@ -624,12 +636,16 @@ def run_image_part(ctx, harness, counts):
             impl, rc, err = fu.result()
             stats["episodes"] += 1
             stats["ops"] += len(impl)
-            replay = {"script": lines, "stderr": err[-600:], "note": "image files live in the check's scratch directory; re-run the check with the "
+            replay = {"script": lines, "stderr": err[:1500], "note": "image files live in the check's scratch directory; re-run the check with the "
                       "same VERIF_SEED/tier to regenerate them"}
             if rc != 0 or len(impl) != len(lines):
                 counts["img-crash"] = counts.get("img-crash", 0) + 1
-                ctx.violation("crash:img:%s" % vlib.sha("\n".join(lines))[:10], "real reader code aborted on a whole-image history (rc=%d) at line "
-                              "%d: %s" % (rc, len(impl), lines[min(len(impl), len(lines) - 1)]), replay)
+                site = crash_site(err)
+                stats.setdefault("crash_sites", {})
+                stats["crash_sites"][site] = stats["crash_sites"].get(site, 0) + 1
+                ctx.violation("C10:crash-in:%s" % site, "real reader code aborted on a whole-image history (rc=%d, %s image) in %s at line "
+                              "%d: %s" % (rc, "damaged" if meta["damaged"] or meta.get("bad") else "undamaged", site, len(impl),
+                                          lines[min(len(impl), len(lines) - 1)]), replay)
                 continue
             bad = hist_mismatches(impl)
             stats["hist_ne_fresh_lines"] += len(bad)
@@ -765,6 +781,19 @@ def replay(ctx, path):
         return 1
     ctx.lean_build(["sqfsmodel"])
     harness = build_harness(ctx)
+    if any(l.startswith("img") for l in rp["script"]):
+        # whole-image history: no model, the oracle is history vs fresh; the image file must still exist
+        missing = [l.split()[1] for l in rp["script"] if l.startswith("imgfile ") and not os.path.exists(l.split()[1])]
+        if missing:
+            print("image file(s) of this replay are gone (they live in the check's scratch directory): %s\n"
+                  "re-run `VERIF_SEED=%s tools/check C10 --tier %s` to regenerate and re-test them" % (missing, body.get("seed"), body.get("tier")))
+            return 1
+        impl, rc, err = run_harness(ctx, harness, rp["script"], 600)
+        bad = hist_mismatches(impl)
+        for i in bad[:20]:
+            print("%-50s %s" % (rp["script"][i][:50], impl[i][:200]))
+        print("rc=%d, %d line(s) where the used readers answer differently from fresh readers" % (rc, len(bad)))
+        return 1 if bad or rc != 0 else 0
     res = run_episodes(ctx, harness, [("replay", rp["script"])])[0]
     for i, l in enumerate(res["lines"]):
         print("%-40s impl=%s | repaired-model=%s | unrepaired-model=%s" % (
